@@ -80,6 +80,34 @@ m("ib-ignored-not-skipped", IB, """                        deleted_self = True
                     continue
 """, """                        deleted_self = True
 """, ["C08"])
+INO = "src/watchdog/observers/inotify.py"
+INC = "src/watchdog/observers/inotify_c.py"
+m("ino-submoved-nonrecursive", INO, "                if move_from.is_directory and self.watch.is_recursive:", "                if move_from.is_directory:", ["C03"])
+m("ino-moved-toplevel-synthetic", INO, "                self.queue_event(cls(src_path, dest_path))\n", "                self.queue_event(cls(src_path, dest_path, is_synthetic=True))\n", ["C03"])
+m("ino-moved-to-file-silent", INO, """                    cls = DirCreatedEvent if event.is_directory else FileCreatedEvent
+                    self.queue_event(cls(src_path))
+                self.queue_event(DirModifiedEvent(os.path.dirname(src_path)))
+                if event.is_directory and self.watch.is_recursive:""", """                    cls = DirCreatedEvent if event.is_directory else FileCreatedEvent
+                    if event.is_directory:
+                        self.queue_event(cls(src_path))
+                self.queue_event(DirModifiedEvent(os.path.dirname(src_path)))
+                if event.is_directory and self.watch.is_recursive:""", ["C01", "C03"])
+m("ino-swap-src-dest-dirs", INO, "                self.queue_event(cls(src_path, dest_path))\n", "                self.queue_event(cls(dest_path, src_path) if move_from.is_directory else cls(src_path, dest_path))\n", ["C01", "C03"])
+m("inc-no-rekey-descendants", INC, "                        if self.is_recursive:\n                            for _path in self._wd_for_path.copy():", "                        if False:\n                            for _path in self._wd_for_path.copy():", ["C02"])
+m("inc-simulate-skip-subdir-watch", INC, "                        wd_dir = self._add_watch(full_path, self._event_mask)", "                        wd_dir = self._wd_for_path[root]", ["C02"])
+m("inc-subwatches-when-nonrecursive", INC, "                if self.is_recursive and inotify_event.is_directory and inotify_event.is_create:", "                if inotify_event.is_directory and inotify_event.is_create:", ["C02", "C03"])
+m("inc-no-suppress-simulate", INC, """                    with contextlib.suppress(OSError):
+                        full_path = os.path.join(root, dirname)""", """                    if True:
+                        full_path = os.path.join(root, dirname)""", ["C07"])
+m("inc-isdir-from-mask-only", INC, "        return self.is_delete_self or self.is_move_self or self._mask & InotifyConstants.IN_ISDIR > 0", "        return self._mask & InotifyConstants.IN_ISDIR > 0", ["C07"])
+m("ino-root-delete-no-stop", INO, """                self.queue_event(cls(src_path))
+                self.stop()""", """                self.queue_event(cls(src_path))""", ["C07"])
+m("ino-mask-deleted-without-moved-from", INO, "            event_mask |= InotifyConstants.IN_MOVE | InotifyConstants.IN_DELETE\n", "            event_mask |= InotifyConstants.IN_DELETE\n", ["C11"])
+m("ino-filter-before-subevents", INO, """                if move_from.is_directory and self.watch.is_recursive:
+                    for sub_moved_event in generate_sub_moved_events(src_path, dest_path):""", """                if move_from.is_directory and self.watch.is_recursive and (
+                    self._event_filter is None or DirMovedEvent in self._event_filter
+                ):
+                    for sub_moved_event in generate_sub_moved_events(src_path, dest_path):""", ["C11"])
 
 
 def main():
